@@ -1,6 +1,7 @@
-// capacities [5, 8] of the C10/C11 harness
+// capacities [5, 8, 20] (both objects) of the C10/C11 harness
 #include "c10_impl.hpp"
 namespace c10 {
-std::string run_5(const std::vector<std::string>& w) { return run<5>(w); }
-std::string run_8(const std::vector<std::string>& w) { return run<8>(w); }
+std::string run_5_5(const std::vector<std::string>& w) { return run<5, 5>(w); }
+std::string run_8_8(const std::vector<std::string>& w) { return run<8, 8>(w); }
+std::string run_20_20(const std::vector<std::string>& w) { return run<20, 20>(w); }
 }
